@@ -197,12 +197,13 @@ Definition judge_hist (c : hist_case) : Z :=
   let h := map dec_op ops in
   let sc := jrun true h (init sval _ _ root) in
   let su := jrun false h (init sval _ _ root) in
+  (* the property itself first: cached and uncached twin agree call by call *)
+  if negb (check_vids ops oc ou && forallb (fun p => fst p =? snd p) dots) then 5 else
   let r1 := check_obs (vals sc) ops (outs sc) ops (outs sc) oc 1 2 3 in
   if negb (r1 =? 0) then r1 else
   let r2 := check_obs (vals su) ops (outs su) ops (outs su) ou 6 8 7 in
   if negb (r2 =? 0) then r2 else
-  if negb (forallb (check_fin sc) fins) then 4 else
-  if negb (check_vids ops oc ou && forallb (fun p => fst p =? snd p) dots) then 5 else 0.
+  if negb (forallb (check_fin sc) fins) then 4 else 0.
 
 (* branch tag of a history: hits + 100 * evictions-capable appends (misses) — for the coverage histogram *)
 Definition count_ids (outs : list out) : Z :=
